@@ -94,9 +94,22 @@ func concKinds() []concKind {
 					},
 					func() string { return "eq=" + fmt.Sprint(sk.Public().Equal(pk0)) },
 					func() string { return "skm=" + hx(sk.MarshalBinary()) },
+					// the scheme object itself is shared: key derivation and key parsing in every goroutine
+					func() string {
+						p2, s2 := s.DeriveKeyPair(sd(s.SeedSize(), 3500+trial))
+						return "derive=" + hx(p2.MarshalBinary())[:40] + hx(s2.MarshalBinary())[:40]
+					},
+					func() string {
+						p3, err := s.UnmarshalBinaryPublicKey(pkb)
+						if err != nil {
+							return "unmarshal-error"
+						}
+						c, ss, err := s.EncapsulateDeterministically(p3, sd(s.EncapsulationSeedSize(), 3600+trial))
+						return "parse+enc=" + hx(append(c[:min(16, len(c))], ss...), err)
+					},
 				}
 			}
-			return concPlan{ops: mk(), want: wants(mk()), desc: []string{"sk.Public().MarshalBinary", "Decapsulate(sk)", "Encapsulate(pk)", "sk.Public().Equal", "sk.MarshalBinary"}}
+			return concPlan{ops: mk(), want: wants(mk()), desc: []string{"sk.Public().MarshalBinary", "Decapsulate(sk)", "Encapsulate(pk)", "sk.Public().Equal", "sk.MarshalBinary", "Scheme.DeriveKeyPair", "Scheme.UnmarshalBinaryPublicKey+Encapsulate"}}
 		}})
 	}
 
@@ -122,9 +135,20 @@ func concKinds() []concKind {
 					func() string { return "ver=" + fmt.Sprint(s.Verify(pk, msg, sig0, nil)) },
 					func() string { return "pub=" + hx(sk.Public().(sign.PublicKey).MarshalBinary()) },
 					func() string { return "pkm=" + hx(pk.MarshalBinary()) },
+					func() string {
+						p2, s2 := s.DeriveKey(sd(s.SeedSize(), 4500+trial))
+						return "derive=" + hx(p2.MarshalBinary())[:40] + fmt.Sprintf("%x", s.Sign(s2, msg, nil))[:40]
+					},
+					func() string {
+						p3, err := s.UnmarshalBinaryPublicKey(pkb)
+						if err != nil {
+							return "unmarshal-error"
+						}
+						return "parse+ver=" + fmt.Sprint(s.Verify(p3, msg, sig0, nil))
+					},
 				}
 			}
-			return concPlan{ops: mk(), want: wants(mk()), desc: []string{"Sign(sk)", "Verify(pk)", "sk.Public()", "pk.MarshalBinary"}}
+			return concPlan{ops: mk(), want: wants(mk()), desc: []string{"Sign(sk)", "Verify(pk)", "sk.Public()", "pk.MarshalBinary", "Scheme.DeriveKey+Sign", "Scheme.UnmarshalBinaryPublicKey+Verify"}}
 		}})
 	}
 
@@ -208,6 +232,51 @@ func concKinds() []concKind {
 				}
 			}
 			return concPlan{ops: mk(), want: wants(mk()), desc: []string{"shared VerifiableClient Blind+Finalize", "shared Client Blind+Finalize", "sk.Public()", "server.PublicKey()", "FullEvaluate", "Evaluate+Finalize"}}
+		}})
+	}
+
+	// ---- POPRF server shared by goroutines that evaluate under DIFFERENT public info strings
+	for _, su := range []oprf.Suite{oprf.SuiteRistretto255, oprf.SuiteP256} {
+		su := su
+		ks = append(ks, concKind{name: "poprf/" + su.Identifier(), cost: 3, build: func(trial uint64) concPlan {
+			sk0, err := oprf.DeriveKey(su, oprf.PartialObliviousMode, sd(32, 6600+trial), []byte("i"))
+			if err != nil {
+				panic(err)
+			}
+			skb := mb(sk0.MarshalBinary())
+			input := sd(20, 6700+trial)
+			infos := [][]byte{[]byte("info-A"), []byte("info-B"), sd(40, 6800+trial), {}}
+			mk := func() []func() string {
+				sk := new(oprf.PrivateKey)
+				if err := sk.UnmarshalBinary(su, skb); err != nil {
+					panic(err)
+				}
+				srv := oprf.NewPartialObliviousServer(su, sk)
+				cl := oprf.NewPartialObliviousClient(su, sk.Public())
+				var ops []func() string
+				for _, info := range infos {
+					info := info
+					ops = append(ops,
+						func() string { return "full=" + hx(srv.FullEvaluate(input, info)) },
+						func() string {
+							fin, req, err := cl.Blind([][]byte{input})
+							if err != nil {
+								return "blind-error"
+							}
+							ev, err := srv.Evaluate(req, info)
+							if err != nil {
+								return "evaluate-error:" + err.Error()
+							}
+							out, err := cl.Finalize(fin, ev, info)
+							if err != nil {
+								return "finalize-error:" + err.Error()
+							}
+							return fmt.Sprintf("out=%x verify=%v", out[0], srv.VerifyFinalize(input, info, out[0]))
+						})
+				}
+				return ops
+			}
+			return concPlan{ops: mk(), want: wants(mk()), desc: []string{"FullEvaluate(info A)", "Evaluate+Finalize(info A)", "FullEvaluate(info B)", "Evaluate+Finalize(info B)", "…"}}
 		}})
 	}
 
